@@ -188,6 +188,7 @@ type Run struct {
 	nextObj    int
 	nsym       int
 	globals    map[*ssa.Global]*Object
+	raceSeen   map[string]bool
 	inited     map[*ssa.Package]bool
 	viol       []Violation
 	unknowns   []string // inconclusive obligations / bounds
